@@ -35,10 +35,10 @@ HEADER = ('From Coq Require Import List Bool Arith ZArith QArith.\n'
           'Definition out_eqb := list_eqb (list_eqb block_eqb).')
 
 
-def build_pool(rng):
+def build_pool(rng, nmin=1, nmax=3):
     """a function that builds a fresh copy of a small model: returns (user vars, constraint list, objective)"""
     spec = []
-    for _ in range(rng.randint(1, 3)):
+    for _ in range(rng.randint(nmin, nmax)):
         spec.append((rng.choice(['aff', 'abs', 'norm', 'exp', 'pos']), rng.choice(['<=', '>=']), rng.randint(1, 3), rng.randint(0, 2),
                      float(rng.choice([1, 2, 3]))))
 
@@ -156,6 +156,28 @@ def run_history(rng):
     return case, failure, meta
 
 
+def subset_history(rng):
+    """shared constraint objects (several of them with EQUAL nonlinear atoms) are built into Problems subset by subset;
+    every solve must agree with a freshly built copy of the same subset"""
+    import sageopt.coniclifts as cl
+    make, spec = build_pool(rng, nmin=2, nmax=4)
+    x, cons, obj = make()
+    steps = []
+    for step in range(rng.randint(3, 6)):
+        idx = sorted(rng.sample(range(2, len(cons)), rng.randint(1, len(cons) - 2)))
+        steps.append(idx)
+        with warnings.catch_warnings():
+            warnings.simplefilter('ignore')
+            r1 = cl.Problem(cl.MIN, obj, cons[:2] + [cons[i] for i in idx]).solve(verbose=False)
+            xf, cf, of = make()
+            r2 = cl.Problem(cl.MIN, of, cf[:2] + [cf[i] for i in idx]).solve(verbose=False)
+        if r1[0] != r2[0] or np.isfinite(r1[1]) != np.isfinite(r2[1]) or (np.isfinite(r1[1]) and abs(r1[1] - r2[1]) > 1e-5 * (1 + abs(r2[1]))):
+            return ('model spec %s: after building Problems from the subsets %s of the shared constraint objects, the last one solves to %r '
+                    'but a freshly built copy of the same constraints solves to %r' % (spec, steps, r1, r2)), {'spec': str(spec), 'subsets': steps}
+    kinds = [sp_[0] for sp_ in spec]
+    return None, {'spec': str(spec), 'subsets': steps, 'equal_atoms': any(kinds.count(k) > 1 for k in ('exp', 'norm', 'abs', 'pos'))}
+
+
 def oracle_settings(rng):
     """changing the global defaults after construction must not change what a constraint compiles to"""
     import sageopt.coniclifts as cl
@@ -263,6 +285,18 @@ def run(ctx):
             ctx.problem('correspondence', 'suite recompile: model and implementation disagree on history %s; input=%s impl=%s model=%s'
                         % (cases[idx][0], cases[idx][1][:1200], cases[idx][2][:2000], model_out[:2000]), inputs={'history': cases[idx][0]},
                         failing_input_found=False)
+    nsub = 0
+    for _ in range(ctx.n(60, 600)):
+        why, meta = subset_history(ctx.rng)
+        nsub += 1
+        ctx.evaluations += 1
+        ctx.count('subset_history_equal_atoms', bool(meta.get('equal_atoms')))
+        if meta.get('equal_atoms'):
+            ctx.nontrivial.add(vlib.sha(['subset', meta['spec'], meta['subsets']]))
+        if why:
+            ctx.problem('oracle', 'property fails on the implementation: ' + why, inputs=meta, failing_input_found=True)
+            break
+    ctx.suites['subset_histories'] = {'cases': nsub}
     for name, f in (('settings_snapshot', oracle_settings), ('generations', oracle_generations)):
         why = f(ctx.rng)
         ctx.suites[name] = {'cases': 1, 'failure': why}
@@ -276,6 +310,10 @@ def search(ctx):
         case, failure, meta = run_history(ctx.rng)
         if failure:
             return {'history': meta['steps'], 'property_failure': failure}
+    for _ in range(150):
+        why, meta = subset_history(ctx.rng)
+        if why:
+            return dict(meta, property_failure=why)
     for name, f in (('settings_snapshot', oracle_settings), ('generations', oracle_generations)):
         why = f(ctx.rng)
         if why:
